@@ -54,6 +54,8 @@ fn env_case(rng: &mut Rng, projects: &[String], faults: bool) -> Value {
         "lang": rng.pick(&[None, Some("C"), Some("es_ES.UTF-8")]),
         "thor_r": rng.chance(1, 2),
         "thor_v": rng.below(3),
+        "stdout_to": rng.pick(&["pipe", "pipe", "file", "file", "tty"]),
+        "args_variant": rng.pick(&["plain", "plain", "dup_flag", "unknown_opt"]),
     })
 }
 
@@ -173,6 +175,11 @@ pub fn run(tier: &str, seed: u64, replay: Option<String>) -> i32 {
         for (tool, extra) in [("hulc2model", false), ("hulc2model", true), ("thor", false)] {
             env_jobs.push(json!({"t":"env","project":p,"tool":tool,"use_extra":extra,"fs":[],"rust_log":Value::Null,
                 "path_form":"abs","hash_seed":0,"fake_time":Value::Null,"lang":Value::Null,"thor_r":true,"thor_v":0}));
+        }
+        // the documented use: stdout redirected to a file; and an interactive terminal
+        for dev in ["file", "tty"] {
+            env_jobs.push(json!({"t":"env","project":p,"tool":"hulc2model","use_extra":dev == "file","fs":[],"rust_log":Value::Null,
+                "path_form":"abs","hash_seed":0,"fake_time":Value::Null,"lang":Value::Null,"thor_r":false,"thor_v":0,"stdout_to":dev}));
         }
         // a project kept in a directory with an unusual name, reached through a symlink and a relative path
         for (form, name) in [("symlink", "Proyecto [rev2]"), ("rel", "casa (copia) 1")] {
@@ -308,6 +315,11 @@ pub fn run(tier: &str, seed: u64, replay: Option<String>) -> i32 {
         }
         if j["path_form"] != "abs" {
             *fired.entry("fs.path_form".into()).or_insert(0) += 1;
+        }
+        if let Some(d) = j["stdout_to"].as_str() {
+            if d != "pipe" {
+                *fired.entry(format!("proc.stdout_device_{}", d)).or_insert(0) += 1;
+            }
         }
         for (key, detail) in env_keys(o) {
             let simp = j["fs"].as_array().map(|a| a.len()).unwrap_or(0) * 10
